@@ -2,9 +2,10 @@ import GS.Model.Panics
 import GS.Driver.Proto
 /-! line-protocol driver for the panic-isolation model (component `panics`, property C22).
 
-op: `inject <side> <kind> <block> <n> <pre> <ls>`; output, same format as `gs-panics run`:
-`survived=<0|1> fired=<0|1> err=<none|panic|failed|…> cb=<k> sibling=<0|1>`
-(`survived=0 fired=1 err=- cb=- sibling=-` for a dead process).  The prediction is computed from
+ops: `inject <side> <kind> <block> <n> <pre> <ls> [<val>]` and `handler <value> <cb|nocb>`; output, same
+format as `gs-panics run`: `survived=<0|1> fired=<0|1> err=<none|panic|failed|…> cb=<k> val=<0|1|-> sibling=<0|1>`
+(`survived=0 fired=1 err=- cb=- val=- sibling=-` for a dead process).  The kind of the panic VALUE
+(`<val>`) does not influence the prediction: the generated handler cannot look into it.  The prediction is computed from
 the generated site table `GS.Generated.PanicSites.table`; `<ls>` (which link system the target
 request uses) does not influence it. -/
 namespace GS.Driver.Panics
@@ -31,18 +32,37 @@ def b2s (b : Bool) : String := if b then "1" else "0"
 
 def render (p : Prediction) : String :=
   if p.survived then
-    s!"survived=1 fired={b2s p.fired} err={p.err} cb={p.cb} sibling={b2s p.sibling}"
+    let v := if p.fired then b2s p.valOK else "-"
+    s!"survived=1 fired={b2s p.fired} err={p.err} cb={p.cb} val={v} sibling={b2s p.sibling}"
   else
-    s!"survived=0 fired={b2s p.fired} err=- cb=- sibling=-"
+    s!"survived=0 fired={b2s p.fired} err=- cb=- val=- sibling=-"
+
+def valKinds : List String := ["str", "err", "rt-nilmap", "rt-nilptr", "rt-index", "struct"]
+
+def inject (sd kd k n pre ls val : String) : String :=
+  match parseSide sd, parseKind kd, k.toNat?, n.toNat?, pre.toNat? with
+  | some sd, some kd, some k, some n, some pre =>
+    if n < 1 || n > 64 || k ≥ n || pre > n || !(ls == "def" || ls == "opt") || !valKinds.contains val then "bad-op"
+    else render (predict table sd kd k n pre)
+  | _, _, _, _, _ => "bad-op"
+
+/-- `handler <value> <cb|nocb>`: panics.MakeHandler called directly; the model runs the generated
+statement list on the value's tag -/
+def handlerLine (v cb : String) : String :=
+  if !(["nil", "str", "err", "rt", "struct"].contains v) || !(cb == "cb" || cb == "nocb") then "bad-op" else
+  let arg : Option String := if v == "nil" then none else some v
+  let o := runHandler (cb == "cb") arg
+  let isNil := decide (o.ret = .nil)
+  let rpe := match o.ret with | .recovered _ => true | _ => false
+  let obj := arg.isSome && decide (o.ret = .recovered arg)
+  let cbval := if o.cbs.isEmpty then "-" else b2s (o.cbs.all (fun x => decide (x = arg)))
+  s!"nil={b2s isNil} rpe={b2s rpe} obj={b2s obj} cb={o.cbs.length} cbval={cbval}"
 
 def stepLine (t : Toks) : String :=
   match t with
-  | ["inject", sd, kd, k, n, pre, ls] =>
-    match parseSide sd, parseKind kd, k.toNat?, n.toNat?, pre.toNat? with
-    | some sd, some kd, some k, some n, some pre =>
-      if n < 1 || n > 64 || k ≥ n || pre > n || !(ls == "def" || ls == "opt") then "bad-op"
-      else render (predict table sd kd k n pre)
-    | _, _, _, _, _ => "bad-op"
+  | ["inject", sd, kd, k, n, pre, ls] => inject sd kd k n pre ls "str"
+  | ["inject", sd, kd, k, n, pre, ls, val] => inject sd kd k n pre ls val
+  | ["handler", v, cb] => handlerLine v cb
   | _ => "bad-op"
 
 def handler (ops : List Toks) : List String := ops.map stepLine
